@@ -19,7 +19,7 @@ ASSUMPTIONS = [
     "Unicode text = sequences of scalar values (no lone surrogates)",
     "a watchdog firing (30 s per tree) is reported as inconclusive, never as a violation",
 ]
-REQUIRED = ["placeholder_sweep_nodes", "unmodelled_sweep_trees", "vocabulary_sweep_nodes", "vocabulary_sweep_trees", "typed_table_values", "trees_validated_again_after_in_place_edits", "first_use_probes", "repeatability_checks", "trees_valid", "trees_invalid", "tree_calls", "node_calls", "config_fault_cases", "depth_ge_50", "fanout_ge_30"]
+REQUIRED = ["long_numeric_run_values", "placeholder_sweep_nodes", "unmodelled_sweep_trees", "vocabulary_sweep_nodes", "vocabulary_sweep_trees", "typed_table_values", "trees_validated_again_after_in_place_edits", "first_use_probes", "repeatability_checks", "trees_valid", "trees_invalid", "tree_calls", "node_calls", "config_fault_cases", "depth_ge_50", "fanout_ge_30"]
 EXHAUSTIVE = {"quick": False, "thorough": False}
 
 
@@ -287,6 +287,52 @@ def placeholder_and_unmodelled_sweep(ctx):
             emlkit.discard(t)
 
 
+class _CpuBudgetSpent(BaseException):
+    pass
+
+
+def long_numeric_runs(ctx):
+    """Numbers printed with every digit a binary float has (str(Decimal(x)): 49 fraction digits), followed by a unit or a hemisphere letter;
+    long runs of digits, underscores, exponents ending in something that cannot end a number: validation of one short value terminates.
+    The budget is CPU time of this process (20 seconds for a value of under 200 characters - six orders of magnitude above the usual
+    cost), not wall-clock time: a loaded machine does not spend it."""
+    import signal
+    import time
+    values = ["39.4849652254180199071925017051398754119873046875 N", "-105.2705078125000000000000000000000000000000000000 W", "1" * 60 + "x",
+              "0." + "3" * 80 + "\u00b0", "1e" + "9" * 40 + "!", "1_" * 30 + "x", "9" * 100 + " m", "+" + "0" * 64 + "-", "1." + "0" * 40 + "e" + "1" * 40 + "e",
+              " " * 40 + "1" * 40 + " " * 40 + "x", "\u0661" * 60 + "x", "1,000,000,000,000,000,000,000,000,000,000,000,000.00 USD"]
+    numeric = [e for e in mrule.node_names()
+               if any(k.startswith("float") or k == "intContent"
+                      for k in emlkit.rules_table().get(mrule.node_mappings[e], [None, None, {}])[2].get("content_rules", []))]
+
+    def spent(signum, frame):
+        raise _CpuBudgetSpent()
+
+    for e in numeric:
+        for v in values:
+            t = Node(e, content=v)
+            old = signal.signal(signal.SIGVTALRM, spent)
+            started = time.process_time()
+            signal.setitimer(signal.ITIMER_VIRTUAL, 20.0)
+            try:
+                call_both(ctx, mvalidate.node, f"validate.node(<{e}> with content {v!r})", t,
+                          lambda t=t: {"tree": snapshot.to_plain(t), "origin": "long numeric runs", "node_only": True})
+            except _CpuBudgetSpent:
+                ctx.violation("validation-does-not-terminate|numeric-content", f"validate.node(<{e}>) on a content of {len(v)} characters ({v[:30]!r}...) had "
+                              f"not come back after {time.process_time() - started:.0f} seconds of CPU time",
+                              {"tree": snapshot.to_plain(t), "origin": "long numeric runs", "node_only": True})
+                signal.setitimer(signal.ITIMER_VIRTUAL, 0)
+                signal.signal(signal.SIGVTALRM, old)
+                emlkit.discard(t)
+                return
+            finally:
+                signal.setitimer(signal.ITIMER_VIRTUAL, 0)
+                signal.signal(signal.SIGVTALRM, old)
+            ctx.evaluated(2)
+            ctx.count("long_numeric_run_values")
+            emlkit.discard(t)
+
+
 def first_use_probes(ctx):
     """At the very start of the process, per rule: a node that is invalid in three ways (missing required attributes, wrong
     content, a disallowed child) is validated three times in each mode, alternating; every repetition must give the same verdict
@@ -335,6 +381,7 @@ def run(ctx, params):
         if params.get("salt", 0) == 0:
             vocabulary_sweep(ctx, gen)
             placeholder_and_unmodelled_sweep(ctx)
+            long_numeric_runs(ctx)
         rng = ctx.rng
         for label, t in anytrees.allowed_unknown_cases(gen):
             ff, errs = judge_tree(ctx, t, "allowed-but-unknown child " + label)
@@ -409,6 +456,11 @@ def finish(merged):
 def replay(ctx, witness):
     if witness.get("first_use_probe"):
         first_use_probes(ctx)
+        ctx.distinct(1)
+        ctx.distinct(2)
+        return
+    if witness.get("origin") == "long numeric runs":
+        long_numeric_runs(ctx)
         ctx.distinct(1)
         ctx.distinct(2)
         return
